@@ -29,6 +29,7 @@ LineOK(e) ==
     [] e.t = "call" -> e.call \in DOMAIN ref /\ e.resp = ref[e.call]
     [] e.t = "thread" -> e.finished
     [] e.t = "reopen" -> e.res = "ok" /\ e.ms <= ReopenBoundMs /\ e.leaf_ok /\ e.leaves = e.n + 1
+    [] e.t = "handover" -> e.res = "ok" /\ e.ms <= ReopenBoundMs      \* another thread is still dropping the previous instance
     [] OTHER -> TRUE
 
 Advance(e) ==
